@@ -884,9 +884,11 @@ func (c *Client) logs(ctx context.Context, url string, filter *glf.Filter, bm bl
 			return fmt.Errorf("block not found")
 		}
 		b.Lock()
-		if err := setHash(b, logs[0].BlockHash); err != nil {
-			b.Unlock()
-			return err
+		for i := range logs {
+			if err := setHash(b, logs[i].BlockHash); err != nil {
+				b.Unlock()
+				return err
+			}
 		}
 		tx := b.Tx(k.b)
 		tx.PrecompHash.Write(logs[0].TxHash)
